@@ -67,8 +67,28 @@ def seg_roles(crate):
     R = Roles()
     R.crate = crate
     R.fn = {}
-    for nm in DESCENTS + BUILDS + ["push_at", "merge_at", "new_raw", "new", "from_slice", "from_iter", "set", "ask", "modify", "lower_bound", "lower_bound_rev"]:
+    # the public API names are the anchors; private roles are recognised by what they do, under any name
+    for nm in ["new", "from_slice", "from_iter", "set", "ask", "modify", "lower_bound", "lower_bound_rev"]:
         R.fn[nm] = util.need_body(crate, "Segtree::<T, M>::%s" % nm)
+
+    def calls_item(b, what):
+        return any(t["fn"].get("name") == what and (t["fn"].get("trait") or "").endswith("SegtreeItem") for bb, t in b.calls())
+
+    anyb = lambda b: True
+    rec = lambda b: util.self_recursive(b)
+    for role, entry in (("set_internal", "set"), ("ask_internal", "ask"), ("modify_internal", "modify"), ("lower_bound_internal", "lower_bound"), ("lower_bound_rev_internal", "lower_bound_rev")):
+        R.fn[role] = util.resolve_role(crate, R.fn[entry], role, rec, "the recursive worker of Segtree::%s" % entry, named_ok=anyb)
+    R.fn["rebuild"] = util.resolve_role(crate, [R.fn["from_slice"], R.fn["from_iter"]], "rebuild", rec, "the recursive builder behind from_slice/from_iter", named_ok=anyb)
+    R.fn["rebuild_empty"] = util.resolve_role(crate, R.fn["new"], "rebuild_empty", rec, "the recursive builder behind new", named_ok=anyb)
+    descents = [R.fn[x] for x in DESCENTS]
+    R.fn["push_at"] = util.resolve_role(crate, [R.fn["modify"], R.fn["ask"]], "push_at", lambda b: not util.self_recursive(b) and calls_item(b, "push"), "the helper that calls SegtreeItem::push on a node")
+    R.fn["merge_at"] = util.resolve_role(crate, [R.fn["modify"], R.fn["set"]], "merge_at", lambda b: not util.self_recursive(b) and calls_item(b, "update") and not calls_item(b, "push"), "the helper that calls SegtreeItem::update on a node")
+    seg_adt = util.need_adt(crate, "Segtree")
+    builds_tree = lambda b: not util.self_recursive(b) and any(s_["k"] == "assign" and s_["rv"]["k"] == "agg" and s_["rv"]["ak"]["k"] == "adt" and s_["rv"]["ak"]["def"] == seg_adt["key"] for _bb, _i, s_ in b.statements())
+    R.fn["new_raw"] = util.resolve_role(crate, [R.fn["new"], R.fn["from_slice"]], "new_raw", builds_tree, "the constructor that allocates the tree")
+    _DESCENT_KEYS.clear()
+    _DESCENT_KEYS.update(x.key for x in descents)
+    R.role_of = {b_.key: nm_ for nm_, b_ in R.fn.items()}
     adt = util.need_adt(crate, "Segtree")
     names = [f["name"] for f in util.fields_of(adt)]
     R.DATA = [i for i, f in enumerate(util.fields_of(adt)) if f["ty"].replace("alloc::", "std::").startswith("std::vec::Vec<")][0]
@@ -78,7 +98,11 @@ def seg_roles(crate):
         b = R.fn[nm]
         if util.self_recursive(b) or not any(t["fn"].get("name") == callee and (t["fn"].get("trait") or "").endswith("SegtreeItem") for bb, t in b.calls()):
             raise Anchor("%s is expected to be the non-recursive helper calling SegtreeItem::%s" % (nm, callee))
-    R.helpers = util.private_helpers(crate, "Segtree", exclude=list(R.fn.values())) + [f_ for f_ in crate.bodies if not f_.is_closure and f_.kind == "Fn" and f_.container is None and f_.vis != "pub" and not util.self_recursive(f_) and "segtree_items" not in f_.path]
+    # every non-public, non-recursive function of the engine module that is not a role (methods of Segtree, free
+    # functions, associated functions of private helper types such as an overlap classifier) is inlined
+    rolekeys = {b_.key for b_ in R.fn.values()}
+    R.helpers = [f_ for f_ in crate.bodies if not f_.is_closure and f_.kind in ("Fn", "AssocFn") and f_.vis != "pub" and f_.key not in rolekeys and not util.self_recursive(f_)
+                 and "segtree_items" not in f_.path and not (crate.impl_of(f_) or {}).get("of_trait")]
     _A[0] = util.analyser(R.helpers, features=("comb",))  # bool::then / Option::map with closures are case splits
     R.A_with = lambda extra: util.analyser(R.helpers + list(extra), features=("comb",))
     return R
@@ -140,6 +164,7 @@ def norm_mid(t, a, b):
 
 
 _A = [None]
+_DESCENT_KEYS = set()
 
 
 class Loopified:
@@ -192,7 +217,7 @@ def analyse(body):
     """term-flow analysis with the crate's private non-role helper functions (children(i), mid(l, r), ...)
     inlined into their callers"""
     I = (_A[0] or util.analyse)(body)
-    if body.name in DESCENTS and len(I.loops) == 1 and I.backedge_states:
+    if body.key in _DESCENT_KEYS and len(I.loops) == 1 and I.backedge_states:
         k = id(I)
         if k not in _loopified:
             _loopified[k] = Loopified(I, list(I.loops)[0], body)
